@@ -334,7 +334,7 @@ def zbool(v):
         return z3.BoolVal(False)
     if isinstance(v, (int, float)):
         return z3.BoolVal(bool(v))
-    if isinstance(v, str):
+    if isinstance(v, (str, bytes, bytearray)):
         return z3.BoolVal(bool(v))
     if z3.is_bool(v):
         return v
